@@ -278,9 +278,13 @@ Assign ==
      \* propagation found every conflict before the solver moves on: no clause of the
      \* database is falsified when a decision is taken
      /\ (IF Rec[l].tag = "decide" /\ RuleOn("C01")
-         THEN Chk("C01", \A i \in DOMAIN wb.cls : \E y \in ClauseLits(i) : Neg(y) \notin wb.A,
-                  "C01_DecisionOverFalsifiedClause",
-                  {i \in DOMAIN wb.cls : \A y \in ClauseLits(i) : Neg(y) \in wb.A})
+         THEN \* (the lock / exclusion clauses of a directly named soft solvable are exempt, as
+              \* in ClauseHolds: the property lets such a solvable ignore them)
+              LET bad == {i \in DOMAIN wb.cls :
+                            /\ \A y \in ClauseLits(i) : Neg(y) \in wb.A
+                            /\ ~(/\ ClauseKind(i) \in {"lock", "excluded"}
+                                 /\ \E z \in ClauseLits(i) : z[1] # 0 /\ SolvOfVar(z[1]) \in Range(p.soft))}
+              IN Chk("C01", bad = {}, "C01_DecisionOverFalsifiedClause", bad)
          ELSE TRUE)
      /\ (IF Rec[l].tag # "implied" THEN TRUE
          ELSE /\ Chk("C02", HasClause(Rec[l].why), "C02_ReasonLogged", Rec[l].why)
